@@ -1148,6 +1148,16 @@ func (w *weaver) collect(s ast.Stmt) []acc {
 				visit(x, false)
 			}
 		case *ast.CallExpr:
+			if fn, ok := w.callee(e).(*types.Func); ok && fn.Pkg() != nil && fn.Pkg().Path() == "sync/atomic" {
+				// operands of atomic operations are synchronisation, not plain accesses
+				for _, a := range e.Args {
+					if u, ok := unparen(a).(*ast.UnaryExpr); ok && u.Op == token.AND {
+						continue
+					}
+					visit(a, false)
+				}
+				return
+			}
 			// pointer-receiver method on an addressable field: may write
 			if sel, ok := unparen(e.Fun).(*ast.SelectorExpr); ok {
 				if s, ok := w.info().Selections[sel]; ok && s.Kind() == types.MethodVal {
